@@ -4,7 +4,7 @@
 From Coq Require Import ZArith List Bool.
 Import ListNotations.
 Require Import Grist.Model.ActionLog Grist.Model.ActionLogEnc Grist.Proofs.ActionLog_proofs Grist.Proofs.ActionLog_calc
-  Grist.Proofs.ActionLogEnc_laws.
+  Grist.Proofs.ActionLog_stage3 Grist.Proofs.ActionLogEnc_laws.
 Open Scope Z_scope.
 
 (* The statement at full strength, for a class `wf_events` of event lists: replaying the undo list of a
@@ -47,6 +47,21 @@ Proof. intros O L s es s' out _ Hok H. exact (bundle_ok2_undo O L s es s' out Ho
 Theorem C01_undo_restores_encoded_values_partial : forall tt, tt_ok tt = true ->
   C01_statement (EOps tt) (docs_then_calcs (EOps tt)).
 Proof. intros tt H. apply C01_undo_restores_docs_calcs_partial. apply EOps_laws. exact H. Qed.
+
+(* Stage 3, first increment: after the leading doc actions (any, lossless) the calc deltas may be interleaved with
+   RenameColumn and RenameTable (to names without the reserved prefix) in any order and number.  `bundle_ok3` is the
+   computable check (it accepts every bundle `bundle_ok2` accepts).  The proof carries a ghost document that follows
+   only the doc actions: the pending deltas relate the real document to the ghost one (calc_rel), they travel with the
+   renames exactly as LabelRenames moves the delta keys (dget_rencol, dget_rentab), and at the flush the restores bring
+   the real document to the ghost one, from which the undo actions of the doc actions lead back to the start. *)
+Definition docs_calcs_renames (O : ValOps) (s : state O) (es : list (event O)) : Prop := bundle_ok3 O s es = true.
+
+Theorem C01_undo_restores_calc_then_rename_partial : forall O, ValLaws O -> C01_statement O (docs_calcs_renames O).
+Proof. intros O L s es s' out _ Hok H. exact (bundle_ok3_undo O L s es s' out Hok H). Qed.
+
+Theorem C01_undo_restores_calc_then_rename_encoded_partial : forall tt, tt_ok tt = true ->
+  C01_statement (EOps tt) (docs_calcs_renames (EOps tt)).
+Proof. intros tt H. apply C01_undo_restores_calc_then_rename_partial. apply EOps_laws. exact H. Qed.
 
 (* Each doc action is undone by the undo actions it appended, except for the cells in `lossy` (restored by
    the engine through the calc summary, by recalculation, or by the conversion delta of doModifyColumn). *)
@@ -186,6 +201,27 @@ Example C01_stage3_example :
 Proof.
   eexists. eexists. eexists. split; [vm_compute; reflexivity|]. split; [reflexivity|].
   split; [vm_compute; reflexivity|]. intros t ->. eexists. split; [vm_compute; reflexivity|]. split; reflexivity.
+Qed.
+
+(* The first increment of stage 3 on a concrete bundle: a calc delta on an existing formula column, the column and
+   then the table renamed, one more calc delta under the new names.  The restore appended at the flush names the
+   latest names and precedes (in replay order, follows) the rename undos. *)
+Definition ex5_events : list (event ZOps) :=
+  [ Doc ZOps (BulkUpdateRecord ZOps nT [1] [(nA, [11])]);
+    Calc ZOps nT nF [(1, (10, 11))];
+    Doc ZOps (RenameColumn ZOps nT nF [71]);
+    Doc ZOps (RenameTable ZOps nT [85]);
+    Calc ZOps [85] [71] [(2, (20, 21))] ].
+
+Example C01_calc_then_rename_nonvacuous :
+  bundle_ok3 ZOps ex3_state ex5_events = true /\ bundle_ok2 ZOps ex3_state ex5_events = false /\
+  exists s' out s'', run ZOps ex3_state ex5_events = Ok (s', out) /\
+                 o_undo ZOps out = [BulkUpdateRecord ZOps nT [1] [(nA, [10])]; RenameColumn ZOps nT [71] nF;
+                                    RenameTable ZOps [85] nT; BulkUpdateRecord ZOps [85] [1; 2] [([71], [10; 20])]] /\
+                 replay_doc ZOps (rev (o_undo ZOps out)) s' = Ok s'' /\ view ZOps s'' = view ZOps ex3_state.
+Proof.
+  split; [vm_compute; reflexivity|]. split; [vm_compute; reflexivity|]. eexists. eexists. eexists.
+  split; [vm_compute; reflexivity|]. split; [reflexivity|]. split; vm_compute; reflexivity.
 Qed.
 
 (* ------------------------------------------------------------------------------------------------ *)
